@@ -20,12 +20,15 @@ type Term struct {
 	id   int
 	key  string
 	tt   *termTable
+	lo   uint64 // unsigned range of the value (bit-vector terms): lo <= v <= hi
+	hi   uint64
 }
 
 // termTable hash-conses terms for one path execution.
 type termTable struct {
 	m    map[string]*Term
 	next int
+	i    *interpreter
 }
 
 func newTermTable() *termTable { return &termTable{m: map[string]*Term{}} }
@@ -45,6 +48,7 @@ func (tt *termTable) intern(t *Term) *Term {
 	t.id = tt.next
 	t.key = k
 	t.tt = tt
+	t.lo, t.hi = computeRange(t)
 	tt.m[k] = t
 	return t
 }
@@ -84,6 +88,148 @@ func signExt(v uint64, w int) int64 {
 	}
 	sh := uint(64 - w)
 	return int64(v<<sh) >> sh
+}
+
+// computeRange is a cheap interval analysis (independent of any path
+// condition, hence sound everywhere): it lets comparisons such as
+// '0' <= byte(v%10)+'0' be decided without the solver and lets the integer
+// encoding drop mod-2^w wrappers that cannot wrap.
+func computeRange(t *Term) (lo, hi uint64) {
+	if t.w == 0 {
+		return 0, 1
+	}
+	full := mask(t.w)
+	switch t.op {
+	case "const":
+		return t.val, t.val
+	case "var":
+		return 0, full
+	}
+	a := t.args
+	addNoWrap := func(x, y uint64) (uint64, bool) {
+		s := x + y
+		if s < x || s > full {
+			return 0, false
+		}
+		return s, true
+	}
+	switch t.op {
+	case "bvurem":
+		if a[1].isConst() && a[1].val != 0 {
+			h := a[1].val - 1
+			if a[0].hi < h {
+				h = a[0].hi
+			}
+			return 0, h
+		}
+		return 0, a[0].hi
+	case "bvudiv":
+		if a[1].isConst() && a[1].val != 0 {
+			return a[0].lo / a[1].val, a[0].hi / a[1].val
+		}
+		return 0, full
+	case "bvadd":
+		l, ok1 := addNoWrap(a[0].lo, a[1].lo)
+		h, ok2 := addNoWrap(a[0].hi, a[1].hi)
+		if ok1 && ok2 {
+			return l, h
+		}
+	case "bvsub":
+		if a[0].lo >= a[1].hi {
+			return a[0].lo - a[1].hi, a[0].hi - a[1].lo
+		}
+	case "bvmul":
+		for s := 0; s < 2; s++ {
+			if c := a[s]; c.isConst() {
+				x := a[1-s]
+				if c.val == 0 {
+					return 0, 0
+				}
+				if x.hi <= full/c.val {
+					return x.lo * c.val, x.hi * c.val
+				}
+			}
+		}
+	case "bvand":
+		h := a[0].hi
+		if a[1].hi < h {
+			h = a[1].hi
+		}
+		return 0, h
+	case "bvlshr":
+		if a[1].isConst() && a[1].val < 64 {
+			return a[0].lo >> a[1].val, a[0].hi >> a[1].val
+		}
+		return 0, a[0].hi
+	case "zext":
+		return a[0].lo, a[0].hi
+	case "extract":
+		if t.p2 == 0 && a[0].hi <= full {
+			return a[0].lo, a[0].hi
+		}
+	case "ite":
+		l, h := a[1].lo, a[1].hi
+		if a[2].lo < l {
+			l = a[2].lo
+		}
+		if a[2].hi > h {
+			h = a[2].hi
+		}
+		return l, h
+	}
+	return 0, full
+}
+
+// rangeDecides evaluates a comparison from the operand ranges when they
+// decide it.
+func rangeDecides(op string, x, y *Term) (bool, bool) {
+	w := x.w
+	if w == 0 {
+		return false, false
+	}
+	sgnOK := x.hi <= mask(w)>>1 && y.hi <= mask(w)>>1 // both non-negative as signed
+	switch op {
+	case "bvslt", "bvsle", "bvsgt", "bvsge":
+		if !sgnOK {
+			return false, false
+		}
+		op = "bvu" + op[3:]
+	}
+	switch op {
+	case "bvult":
+		if x.hi < y.lo {
+			return true, true
+		}
+		if x.lo >= y.hi {
+			return false, true
+		}
+	case "bvule":
+		if x.hi <= y.lo {
+			return true, true
+		}
+		if x.lo > y.hi {
+			return false, true
+		}
+	case "bvugt":
+		if x.lo > y.hi {
+			return true, true
+		}
+		if x.hi <= y.lo {
+			return false, true
+		}
+	case "bvuge":
+		if x.lo >= y.hi {
+			return true, true
+		}
+		if x.hi < y.lo {
+			return false, true
+		}
+	case "=":
+		if x.hi < y.lo || y.hi < x.lo {
+			return false, true
+		}
+	}
+	return false, false
 }
 
 // evalOp computes op on constants; ok=false if op is unknown.
@@ -239,6 +385,15 @@ func (tt *termTable) app(op string, w, p1, p2 int, args ...*Term) *Term {
 		}
 		if v, ok := evalOp(op, w, vals, aw, p1, p2); ok {
 			return tt.Const(w, v)
+		}
+	}
+	// comparisons decided by the operand ranges
+	switch op {
+	case "bvult", "bvule", "bvugt", "bvuge", "bvslt", "bvsle", "bvsgt", "bvsge", "=":
+		if len(args) == 2 && args[0].w > 0 {
+			if r, ok := rangeDecides(op, args[0], args[1]); ok {
+				return tt.Bool(r)
+			}
 		}
 	}
 	// light simplification
